@@ -759,30 +759,27 @@ func checkHistory(p hprogram, obs [][]hobs, log [][]string, final *t38.Dump) (*h
 		}
 		return
 	}
-	// searchRead looks for a prefix length in the window at which f accepts.
-	searchRead := func(ci, oi, lo, hi int, f func(db *model.DB) string) (ok bool, why string, cands int) {
-		last := ""
-		for k := lo; k <= hi; k++ {
-			if inside[k] {
-				continue
-			}
-			cands++
-			d := f(S[k].Clone())
-			if d == "" || d == unsup {
-				if d == unsup {
-					st.unsupported++
-				}
-				if histDebug != nil {
-					histDebug(fmt.Sprintf("read %s: window [%d,%d] accepted at prefix %d (unsupported=%v)", opName(ci, oi), lo, hi, k, d == unsup))
-				}
-				return true, "", cands
-			}
-			last = fmt.Sprintf("at prefix %d: %s", k, d)
-		}
-		if cands == 0 {
-			last = fmt.Sprintf("window [%d,%d] holds no admissible prefix", lo, hi)
-		}
-		return false, last, cands
+	// Operations that are not in the log ("reads") are collected first and
+	// placed afterwards, in the order of their send times: each one gets the
+	// smallest admissible prefix length that lies in its window, is not
+	// smaller than the one of any read that was ANSWERED before this one was
+	// SENT (two reads in real-time order must not see the writes in opposite
+	// orders), and not smaller than the one of its explicit predecessor (the
+	// previous read of the same pipelined segment). Smallest-first is
+	// complete: all constraints are lower bounds.
+	type rtask struct {
+		ci, oi     int
+		send, recv int64
+		lo, hi     int
+		pred       int // index of the explicit predecessor task, -1 = none
+		f          func(db *model.DB) string
+		key, what  string
+		k          int
+	}
+	var tasks []rtask
+	addTask := func(ci, oi, lo, hi, pred int, f func(db *model.DB) string, key, what string) int {
+		tasks = append(tasks, rtask{ci: ci, oi: oi, send: obs[ci][oi].Send, recv: obs[ci][oi].Recv, lo: lo, hi: hi, pred: pred, f: f, key: key, what: what, k: -1})
+		return len(tasks) - 1
 	}
 	elsewhere := func(lo, hi int, f func(db *model.DB) string) string {
 		for k := 0; k <= n; k++ {
@@ -834,13 +831,7 @@ func checkHistory(p hprogram, obs [][]hobs, log [][]string, final *t38.Dump) (*h
 					}
 					return ""
 				}
-				ok, why, cands := searchRead(ci, oi, lo, hi, f)
-				if !ok {
-					return viol("no-linearization-point:"+name, "%s is not in the log; no prefix length in its real-time window [%d,%d] of the %d logged writes gives this reply (%s; %s)", opName(ci, oi), lo, hi, n, why, elsewhere(lo, hi, f))
-				}
-				if cands > 1 {
-					st.wideWindows++
-				}
+				addTask(ci, oi, lo, hi, -1, f, "no-linearization-point:"+name, "is not in the log")
 			case "pipe":
 				// the reads are executed one after the other: non-decreasing
 				// prefix lengths, each admissible (the smallest feasible one
@@ -848,6 +839,7 @@ func checkHistory(p hprogram, obs [][]hobs, log [][]string, final *t38.Dump) (*h
 				st.pipes++
 				st.reads += len(o.Reads)
 				lo, hi := window(ci, oi)
+				prev := -1
 				for ri, rd := range o.Reads {
 					got := ob.Replies[ri]
 					f := func(db *model.DB) string {
@@ -857,26 +849,7 @@ func checkHistory(p hprogram, obs [][]hobs, log [][]string, final *t38.Dump) (*h
 						}
 						return r.CheckRESP(got)
 					}
-					found := -1
-					why := fmt.Sprintf("window [%d,%d] holds no admissible prefix", lo, hi)
-					for k := lo; k <= hi; k++ {
-						if inside[k] {
-							continue
-						}
-						d := f(S[k].Clone())
-						if d == "" || d == unsup {
-							if d == unsup {
-								st.unsupported++
-							}
-							found = k
-							break
-						}
-						why = fmt.Sprintf("at prefix %d: %s", k, d)
-					}
-					if found < 0 {
-						return viol("no-linearization-point:pipelined-read", "%s: read %d (%s -> %.200s) of the pipelined segment has no admissible prefix length in [%d,%d] (the window left by the reads before it), outside atomic scripts (%s; %s)", opName(ci, oi), ri, t38.CmdString(rd), got.String(), lo, hi, why, elsewhere(lo, hi, f))
-					}
-					lo = found
+					prev = addTask(ci, oi, lo, hi, prev, f, "no-linearization-point:pipelined-read", fmt.Sprintf("read %d (%s -> %.200s) of its pipelined segment", ri, t38.CmdString(rd), got.String()))
 				}
 			case "incr":
 				st.incrs++
@@ -939,13 +912,7 @@ func checkHistory(p hprogram, obs [][]hobs, log [][]string, final *t38.Dump) (*h
 					}
 					return ""
 				}
-				ok, why, cands := searchRead(ci, oi, lo, hi, f)
-				if !ok {
-					return viol("no-linearization-point:script", "%s logged nothing; no prefix length in its window [%d,%d] gives this reply (%s; %s)", opName(ci, oi), lo, hi, why, elsewhere(lo, hi, f))
-				}
-				if cands > 1 {
-					st.wideWindows++
-				}
+				addTask(ci, oi, lo, hi, -1, f, "no-linearization-point:script", "logged nothing")
 			case "evalna":
 				// only the last call is observable
 				lastCmd := o.Inner[len(o.Inner)-1]
@@ -982,15 +949,67 @@ func checkHistory(p hprogram, obs [][]hobs, log [][]string, final *t38.Dump) (*h
 					}
 					return ""
 				}
-				ok, why, cands := searchRead(ci, oi, lo, hi, f)
-				if !ok {
-					return viol("no-linearization-point:script", "%s: its last call is not in the log; no prefix length in [%d,%d] gives this reply (%s; %s)", opName(ci, oi), lo, hi, why, elsewhere(lo, hi, f))
+				addTask(ci, oi, lo, hi, -1, f, "no-linearization-point:script", "(its last call is not in the log)")
+			}
+		}
+	}
+	// 5b. place the collected reads
+	order := make([]int, len(tasks))
+	for i := range order {
+		order[i] = i
+	}
+	sort.SliceStable(order, func(a, b int) bool { return tasks[order[a]].send < tasks[order[b]].send })
+	for _, ti := range order {
+		tk := &tasks[ti]
+		lower, lowerBy := tk.lo, -1
+		if tk.pred >= 0 && tasks[tk.pred].k > lower {
+			lower, lowerBy = tasks[tk.pred].k, tk.pred
+		}
+		for _, tj := range order {
+			o := &tasks[tj]
+			if o.k >= 0 && o.recv < tk.send && o.k > lower {
+				lower, lowerBy = o.k, tj
+			}
+		}
+		cands := 0
+		why := ""
+		for k := lower; k <= tk.hi; k++ {
+			if inside[k] {
+				continue
+			}
+			cands++
+			d := tk.f(S[k].Clone())
+			if d == "" || d == unsup {
+				if d == unsup {
+					st.unsupported++
 				}
-				if cands > 1 {
-					st.wideWindows++
+				if histDebug != nil {
+					histDebug(fmt.Sprintf("read %s: window [%d,%d] lower bound %d accepted at prefix %d (unsupported=%v)", opName(tk.ci, tk.oi), tk.lo, tk.hi, lower, k, d == unsup))
+				}
+				tk.k = k
+				break
+			}
+			why = fmt.Sprintf("at prefix %d: %s", k, d)
+		}
+		if tk.k >= 0 {
+			if cands > 1 || tk.hi > lower {
+				st.wideWindows++
+			}
+			continue
+		}
+		if cands == 0 {
+			why = fmt.Sprintf("[%d,%d] holds no admissible prefix", lower, tk.hi)
+		}
+		// would it fit without the bound set by the earlier read?
+		if lowerBy >= 0 {
+			for k := tk.lo; k < lower && k <= tk.hi; k++ {
+				if !inside[k] && tk.f(S[k].Clone()) == "" {
+					e := &tasks[lowerBy]
+					return viol("reads-disagree-on-write-order", "%s %s and is explained by the log prefix %d only, but %s was answered before this one was sent and needs a prefix >= %d: the two replies see the %d logged writes in opposite orders (%s)", opName(tk.ci, tk.oi), tk.what, k, opName(e.ci, e.oi), lower, n, why)
 				}
 			}
 		}
+		return viol(tk.key, "%s %s; no prefix length in its real-time window [%d,%d] (lower bound %d after the reads answered before it) of the %d logged writes, outside atomic scripts, gives this reply (%s; %s)", opName(tk.ci, tk.oi), tk.what, tk.lo, tk.hi, lower, n, why, elsewhere(tk.lo, tk.hi, tk.f))
 	}
 	// 6. the visible dataset at the end is the one the log produces
 	if final != nil {
